@@ -576,6 +576,8 @@ class Unit:
         if spec.raises:
             k = ex.choose(len(spec.raises) + 1, "raise@" + name)
             if k > 0:
+                if spec.raise_guard is not None:
+                    ex.pc.append(spec.raise_guard(ex, bound))
                 raise RaiseSig(VExc(spec.raises[k - 1]), name)
         if spec.post is not None:
             f = spec.post(ex, bound, result)
